@@ -9,7 +9,8 @@ import codes_common as CC
 THEOREMS = ['C10_category_range', 'C10_category_of_family', 'C10_field_order', 'C10_pad5_iso', 'C10_text_key_shape',
             'C10_relay_distance', 'C10_sort_length', 'C10_fieldOrder_total_generic',
             'pyMatch_eq_language', 'C10_category_by_language', 'C10_hurdles_total', 'C10_duration_total',
-            'C10_throws_total', 'C10_jumps_total', 'C10_track_metres_total', 'C10_sortKey_fails_only_through_getDistance']
+            'C10_throws_total', 'C10_jumps_total', 'C10_track_metres_total', 'C10_sortKey_fails_only_through_getDistance',
+            'C10_sortKey_total', 'C10_textKey_total', 'C10_sortBy_total', 'C10_getDistance_total_nonrelay', 'C10_total_partial']
 LEAN_MODULES = ['AthlibVerif.Oblig.C07.Tie', 'AthlibVerif.Oblig.C10.Groups', 'AthlibVerif.Props.C10']
 
 def call(f, *a):
@@ -28,7 +29,7 @@ def run(ctx):
     ok, log, failed = ctx.build(LEAN_MODULES)
     if ok:
         ctx.audit(['AthlibVerif.Props.C10'], ['AthlibVerif.Props.C10.' + n for n in THEOREMS])
-        if not ctx.quick(): ctx.leanchecker(['AthlibVerif.Props.C10', 'AthlibVerif.Lemmas.MatchSound', 'AthlibVerif.Lemmas.MatchCodes'])
+        if not ctx.quick(): ctx.leanchecker(['AthlibVerif.Props.C10', 'AthlibVerif.Lemmas.MatchSound', 'AthlibVerif.Lemmas.MatchCodes', 'AthlibVerif.Lemmas.DistToken', 'AthlibVerif.Lemmas.RelayLeg'])
     vlib.use_repo()
     import athlib
     from athlib import codes
